@@ -41,7 +41,7 @@ struct SimAlloc
     int64_t fk = 0;
     uint64_t bern_num = 0, bern_den = 1;
     Rng frng{1};
-    uint64_t req_in_op = 0, req_total = 0, fired_in_op = 0, fired_total = 0;
+    uint64_t req_in_op = 0, req_total = 0, fired_in_op = 0, fired_total = 0, real_failures = 0;
     std::string last_fired_site;
 
     // allocator-detected violations (first one wins)
@@ -90,7 +90,13 @@ struct SimAlloc
         memset(base, 0xA5, GUARD);
         memset(user + size, 0xA5, GUARD + (cap - size));
 #endif
-        if (!base) { fprintf(stderr, "simalloc: host malloc failed\n"); abort(); }
+        if (!base)
+        { // the real allocator refused (only possible for absurd sizes): report it to the library like any other failure
+            if (harness) { fprintf(stderr, "simalloc: host malloc failed\n"); abort(); }
+            ++real_failures; ++fired_total; ++fired_in_op; last_fired_site = "real_allocator_refused";
+            if (stats) stats->add("fault.alloc_fail.real_allocator_refused");
+            return nullptr;
+        }
         fill_junk(user, size);
         Block b; b.id = next_id++; b.size = size; b.cap = cap; b.op = cur_op; b.harness = harness; b.base = base;
         live[(uintptr_t)user] = b;
@@ -186,7 +192,15 @@ struct SimAlloc
             Block nb = b;
             SIM_UNPOISON(addr, b.cap);
             void *n2 = a_alloc_(addr, size);
-            if (!n2) { fprintf(stderr, "simalloc: host realloc failed\n"); abort(); }
+            if (!n2)
+            { // a real realloc failure of the library's default allocator: the old block must still be intact and live
+#ifdef SIM_ASAN
+                if (b.cap > b.size) SIM_POISON((char *)addr + b.size, b.cap - b.size);
+#endif
+                ++real_failures; ++fired_total; ++fired_in_op; last_fired_site = "real_allocator_refused";
+                if (stats) stats->add("fault.alloc_fail.real_allocator_refused");
+                return nullptr;
+            }
             live.erase(it);
             if (size > nb.size) fill_junk((unsigned char *)n2 + nb.size, size - nb.size);
             nb.size = size; nb.cap = size; nb.base = n2; nb.op = cur_op;
@@ -198,6 +212,7 @@ struct SimAlloc
 #endif
         size_t const keep = size < b.size ? size : b.size;
         void *n = raw_new(size, false);
+        if (!n) return nullptr; // real refusal: old block untouched
         memcpy(n, addr, keep);
         it = live.find((uintptr_t)addr);
         raw_delete(it);
@@ -301,7 +316,7 @@ struct SimAlloc
             }
         freelist.clear(); freed.clear();
         next_id = 1; cur_op = -1;
-        fmode = F_NONE; fk = 0; req_in_op = req_total = fired_in_op = fired_total = 0;
+        fmode = F_NONE; fk = 0; req_in_op = req_total = fired_in_op = fired_total = real_failures = 0;
         err_cls.clear(); err_detail.clear(); last_fired_site.clear();
         always_move = false; junk_fill = true; reuse_lifo = false; passthrough = false;
         classify = nullptr;
